@@ -229,6 +229,17 @@ def decOfText (s : Str) : Dec :=
 
 def asciiNum (s : Str) : Str := s.map fun c => if isDigit c then asciiDigit c else c
 
+/-- `repr(float(text))` for positional decimal text `[-]d+.d+` with ASCII digits, in the range where
+Python prints floats positionally and exactly (at most 15 significant digits, 1e-4 <= |x| < 1e16 or 0):
+leading zeros of the integer part and trailing zeros of the fraction are dropped. Python's
+float <-> text conversion itself is not modelled (correspondence-tested). -/
+def normFloat (s : Str) : Str :=
+  let neg := s.head? == some '-'
+  let u := if neg then s.drop 1 else s
+  let a := (u.takeWhile (· != '.')).dropWhile (· == '0')
+  let b := rstripChar '0' ((u.dropWhile (· != '.')).drop 1)
+  (if neg then ['-'] else []) ++ (if a.isEmpty then ['0'] else a) ++ '.' :: (if b.isEmpty then ['0'] else b)
+
 /-- `to_python`; `none` = `ValidationError` (the rule then does not match) -/
 def toPython : Conv → Str → Option Value
   | .string .., s => some (.str s)
@@ -244,6 +255,6 @@ def toPython : Conv → Str → Option Value
   | .float _ mn mx, s =>
     let v := decOfText s
     if (match mn with | some m => v.lt m | none => false) || (match mx with | some m => m.lt v | none => false)
-    then none else some (.float (asciiNum s))
+    then none else some (.float (normFloat (asciiNum s)))
 
 end Wz.Routing
